@@ -19,6 +19,10 @@ def run_batch(spec):
     model = mudslide.models.scattering_models[spec["model"]](mass=spec.get("mass", 2000.0))
     cls = getattr(mudslide, spec["cls"])
     gen = mudslide.TrajGenConst(spec["x0"], spec["k"], spec.get("state", 0), seed=spec["seed"])
+    if spec.get("gen") == "normal":
+        # momentum spread comparable to the mean: draws with a negative momentum are skipped, so the batch ends up
+        # with FEWER trajectories than requested
+        gen = mudslide.TrajGenNormal(spec["x0"], spec["k"], spec.get("state", 0), spec["sigma"], seed=spec["seed"], seed_traj=spec["seed"] + 1)
     kw = dict(samples=spec["samples"], dt=spec["dt"], bounds=[-abs(spec["box"]), abs(spec["box"])],
               max_steps=spec.get("max_steps", 4000), trace_every=spec.get("every", 1))
     if spec["cls"] == "EvenSamplingTrajectory":
@@ -121,7 +125,12 @@ def oracle_cli(args):
 
     def wrapped(self):
         r = orig(self)
-        captured.append(np.array(r.outcomes, copy=True))
+        ends = []
+        for t in r.traces:
+            first, last = t[0], t[-1]
+            ends.append((float(t.weight), float(np.asarray(first["momentum"]).ravel()[0]), int(last["active"]),
+                         float(np.asarray(last["position"]).ravel()[0])))
+        captured.append((np.array(r.outcomes, copy=True), ends, self.model.nstates()))
         return r
 
     BatchedTraj.compute = wrapped
@@ -138,11 +147,21 @@ def oracle_cli(args):
     if len(rows) != len(captured):
         problems.append("%d rows for %d batches" % (len(rows), len(captured)))
     ks = np.linspace(args["kmin"], args["kmax"], args["nk"])
-    for row, oc, k in zip(rows, captured, ks):
+    for row, (oc, ends, nst), k in zip(rows, captured, ks):
         vals = [float(v) for v in row.split()]
         want = [k] + [float(v) for v in oc.ravel()]
         if len(vals) != len(want) or not allclose(vals, want, 1.0, rtol=0, atol=6e-7):
             problems.append("row %r, table %r" % (vals, want))
+        # the row is the weighted frequency table of the trajectories run AT THIS momentum (constant initial conditions)
+        mine = [e for e in ends if abs(e[1] - k) <= 1e-9 * max(1.0, abs(k))]
+        if len(mine) != len(ends):
+            problems.append("the batch at k=%r returned %d traces, %d of them started with another momentum" % (k, len(ends), len(ends) - len(mine)))
+        W = sum(e[0] for e in mine)
+        tab = np.zeros((nst, 2))
+        for w, _k, act, x in mine:
+            tab[act, 0 if x < 0.0 else 1] += w / W
+        if len(vals) == 1 + tab.size and not allclose(vals[1:], tab.ravel(), 1.0, rtol=0, atol=6e-7):
+            problems.append("row at k=%r is %r; the trajectories run at this momentum give %r" % (k, vals[1:], tab.ravel().tolist()))
     return not problems, {"text": buf.getvalue()[:400], "problems": problems[:3]}, {"rows": len(captured)}, \
         "; ".join(problems[:2]) or "ok"
 
@@ -169,6 +188,10 @@ def _specs(ctx, count):
         if i % 4 == 3 and cls != "AugmentedFSSH":
             spec["store"] = "yaml"
             spec["max_steps"] = 600
+        if i % 5 in (0, 1) and (i // 5) % 2 == 1:
+            # normally distributed initial conditions, 1/sigma ~ k: some of the requested samples are skipped
+            spec.update(gen="normal", k=float(rng.uniform(8, 14)), sigma=float(rng.uniform(0.07, 0.12)), samples=int(rng.integers(6, 12)),
+                        x0=-8.0, box=5.0)
         specs.append(spec)
     return specs
 
@@ -214,6 +237,8 @@ def run(ctx):
                  {"op": "batch", "spec": spec, "ends": ends[:5], "impl_outcomes": oc, "model_outcomes": moc})
         ctx.count("batch:%s" % spec["cls"])
         ctx.count("traces", len(ends))
+        if len(ends) < spec["samples"]:
+            ctx.count("batches_with_fewer_traces_than_requested")
         if o[0] != "ok" or oc.shape != moc.shape or not allclose(oc, moc, 1.0, rtol=1e-12):
             ctx.corr_mismatch("batch.outcome", spec, "model %r impl %r" % (moc.tolist(), oc.tolist()))
         ok, obs, req, text = oracle_batch(spec)
@@ -236,7 +261,7 @@ def run(ctx):
         rng = ctx.rng
         method = ["fssh", "cumulative-sh", "ehrenfest", "even-sampling"][i % 4]
         model = ["simple", "dual", "extended", "super"][int(rng.integers(0, 4))]
-        kmin, kmax, nk = float(rng.uniform(5, 12)), float(rng.uniform(15, 30)), 2
+        kmin, kmax, nk = float(rng.uniform(3, 9)), float(rng.uniform(20, 32)), int(rng.integers(2, 4))
         argv = ["-a", method, "-m", model, "-k", repr(kmin), repr(kmax), "-n", str(nk), "-s", "3", "-z", str(int(rng.integers(1, 10 ** 6))),
                 "-x", "-6", "-b", "4", "-T", "3000", "--sample-stack", "2"]
         a = {"argv": argv, "kmin": kmin, "kmax": kmax, "nk": nk}
